@@ -128,7 +128,15 @@ def compute(events, spec, plan=None, opts=None):
     faults.update(plan.get('modules') or {})
     imported = {e.get('mod') for e in events if e['k'] == 'mod.import'}
     parent = next((e['pid'] for e in events if e['k'] == 'run.enter'), None)
+    T.import_failures_in_children = []
     for mname in faults:
+        if (faults[mname] or {}).get('child_only'):
+            # fails in layer subprocesses only
+            if any(e['k'] == 'mod.import' and e.get('mod') == mname and
+                   parent is not None and e['pid'] != parent
+                   for e in events):
+                T.import_failures_in_children.append(mname)
+            continue
         # counted once: in the parent (children re-import, but only the
         # parent's discovery decides the verdict / totals)
         if any(e['k'] == 'mod.import' and e.get('mod') == mname and
@@ -176,7 +184,8 @@ def compute(events, spec, plan=None, opts=None):
         else:
             d['E'].append('%s (%s)' % (hook, cname))
             its[0]['E'] += 1
-    T.bad = bool(T.layer_failures or T.import_failures or T.crashes or any(
+    T.bad = bool(T.layer_failures or T.import_failures or T.crashes or
+                 T.import_failures_in_children or any(
         d['F'] or d['E'] or d['U'] for d in T.layers.values()))
     T.model = model
     T.tests = tests
